@@ -147,7 +147,7 @@ impl Scenario for C01S {
         }
     }
     fn rule(&self) -> &'static str {
-        "case i < 1584 (OS build): complete enumeration of (6 effective send-buffer sizes from the 4608-byte minimum to the system default, one of them not 8-aligned) x (k = 1..4 packet-capacity boundaries) x (every length within +-16 of the boundary) x (bytes channel | typed Vec<u8>); further cases: 1..6 messages per run, each a seeded recursive serde value (all integer widths, floats by bit pattern incl. NaN payloads, chars, strings, bytes, options, sequences, maps, tuples, structs, enums, optionally padded to multi-packet size) or a byte payload of random / boundary / large length (<= 4 MiB quick, <= 64 MiB thorough), under a seeded SO_SNDBUF, receiver mode (recv, try_recv, try_recv_timeout, receiver set), sender as thread or sim-process and seeded schedule; non-trivial = at least one multi-packet message or nested value; distinct = distinct (case, schedule hash)"
+        "case i < 1584 (OS build): complete enumeration of (6 effective send-buffer sizes from the 4608-byte minimum to the system default, one of them not 8-aligned) x (k = 1..4 packet-capacity boundaries) x (every length within +-16 of the boundary) x (bytes channel | typed Vec<u8>); further cases: 1..6 messages per run, each a seeded recursive serde value (all integer widths, floats by bit pattern incl. NaN payloads, chars, strings, bytes, options, sequences, maps, tuples, structs, enums, optionally padded to multi-packet size) or a byte payload of random / boundary / large length (<= 4 MiB quick, <= 64 MiB thorough; the in-process transport has no packet boundaries: fixed, random and large lengths there), under a seeded SO_SNDBUF, receiver mode (recv, try_recv, try_recv_timeout, receiver set), sender as thread or sim-process and seeded schedule; non-trivial = at least one multi-packet message or nested value; distinct = distinct (case, schedule hash)"
     }
     fn gen(&self, seed: u64, idx: u64, tier: Tier, variant: &str) -> Value {
         let mut r = Rng::stream(seed, idx.wrapping_mul(2654435761).wrapping_add(0xC01));
@@ -178,7 +178,13 @@ impl Scenario for C01S {
                 msgs.push(json!({"kind": "value", "seed": r.next() >> 8, "pad": pad}));
             } else {
                 let len = if first == usize::MAX {
-                    *r.pick(&[0u64, 1, 100, 70000, 1 << 20])
+                    // in-process transport: no packets, hence no boundaries; fixed and random lengths
+                    match r.below(8) {
+                        0..=4 => *r.pick(&[0u64, 1, 100, 70000, 1 << 20]),
+                        5..=6 => r.range(0, 300_000),
+                        _ if r.chance(1, if tier == Tier::Thorough { 10 } else { 30 }) => r.range(1 << 20, max_big),
+                        _ => r.range(0, 2000),
+                    }
                 } else {
                     match r.below(12) {
                         0 => 0,
